@@ -53,7 +53,7 @@ GROUPS = {
     },
 }
 
-TIER_TIMEOUT = {"quick": 600, "thorough": 2700}
+TIER_TIMEOUT = {"quick": 1500, "thorough": 3600}
 
 TRUSTED_BASE = [
     "rustc MIR -> kani-compiler 0.68 -> CBMC 6.11 -> CaDiCaL",
